@@ -74,6 +74,8 @@ def gen_chart(rng, P):
               lst.append([k, rng.choice(["note", "x y", "hello:world"])])
             else:
               lst.append([k, rng.choice(sigs)])
+          if rng.random() < P.get("p_fault", 0.0):
+            lst.append(["raise"])          # fault injection: this handler fails after its other effects
           eff.append([i, sg, lst])
   st = lambda: [rng.choice("hf") for _ in range(n)]
   chart = {
